@@ -360,6 +360,20 @@ example : WellFormedExcept exBad [13, 1] := by decide
 example : synWfB exBad [13, 1] = true := by decide
 example : invokable exBad 13 = true ∧ declared exBad 13 = false := by decide
 example : invokable exBad 1 = false ∧ (1 : Name) ∈ advertised exBad := by decide
+/-- the whole handler on the well-formed example: refused without / with a foreign token, served with the owner's token -/
+example : gateProxyOkB exC = true := by decide
+example : handle exC (some 3) none 1 = (.objectLocked, []) ∧ handle exC (some 3) (some 4) 1 = (.objectLocked, [])
+    ∧ handle exC (some 3) (some 3) 1 = (.methodResult, [.called 1]) ∧ handle exC (some 3) (some 3) 6 = (.unknownRpc, [])
+    ∧ handle exC none none 2 = (.methodResult, [.called 2]) := by decide
+/-- what the side condition excludes: `_name` as a property is evaluated by the refusal's log line -/
+example : handle { mro := [[(n__name, .prop)], exBase] } (some 3) none 1 = (.objectLocked, [.attrCodeRan n__name]) := by
+  decide
+/-- the proxy: stubs = advertised; a signal of the same name takes the stub's place; `address` cannot be set -/
+example : proxyBuild [1, 2, 4] [3] [9] = .ok [1, 2, 4] := by rfl
+example : proxyBuild [1, 2, 4] [] [2] = .ok [1, 4] := by rfl
+example : proxyBuild [1, n_address] [] [] = .error .attributeError := by rfl
+example : proxyCleanB { exC with sigs := [9], consts := [3] } = true := by decide
+
 /-- a class that marks `lock` cannot be constructed -/
 example : construct { mro := [[(n_lock, .func true true)], exBase] } = .error .usage := by rfl
 
